@@ -1,4 +1,5 @@
 """C18 - date serials and date functions follow the 1900 date system."""
+import importlib
 import datetime
 import os
 import random
@@ -74,6 +75,11 @@ class SweepReplayer:
             st = pool.parse_block(b)
             s = st['case']['args'][0]['n']
             full = s < 130 or s % self.every == 0 or s > MAX_SERIAL - 100
+            # the conversion itself (utils.number_to_datetime): the serial with a time of day, converted BEFORE the whole
+            # serial is used on odd serials and AFTER on even ones - the date is the calendar date of the TLC state, the
+            # time of day is the fraction, whatever this process converted earlier
+            if s % 2 == 1:
+                self.conversion(out, s, st['res'], s % 4)
             for f, args, exp in sweep_cases(s, st['res'], full):
                 case = {'f': f, 'args': args}
                 out['n'] += 1
@@ -100,7 +106,32 @@ class SweepReplayer:
                                            'features': features(c, exp, obs, path)})
                 if len(out['samples']) < 2 and f == 'DATE':
                     out['samples'].append({'case': case, 'expected': exp, 'observed': obs, 'path': path})
+            if s % 2 == 0:
+                self.conversion(out, s, st['res'], s % 4)
+            self.conversion(out, s, st['res'], 0)
         return out
+
+    def conversion(self, out, s, r, q):
+        if s == 60:
+            return
+        L = xl.lib()
+        val = s + q / 4 if q else s
+        exp = {'t': 'date', 's': s, 'fn': {0: 0, 1: 1, 2: 1, 3: 3}[q], 'fd': {0: 1, 1: 4, 2: 2, 3: 4}[q]}
+        try:
+            dt = importlib.import_module('xlcalculator.xlfunctions.utils').number_to_datetime(val)
+            obs = xl.to_abs(dt)
+            fields_ok = (dt.year, dt.month, dt.day) == (r['y'], r['m'], r['d'])
+        except BaseException as e:      # noqa
+            if isinstance(e, (KeyboardInterrupt, SystemExit)):
+                raise
+            obs, fields_ok = xl.to_abs(e), False
+        out['n'] += 1
+        out['calls'] += 1
+        out['byf']['number_to_datetime'] = out['byf'].get('number_to_datetime', 0) + 1
+        if agrees(obs, exp) is False or not fields_ok:
+            c = {'f': 'number_to_datetime', 'args': [R(4 * s + q, 4) if q else N(s)]}
+            out['dis'].append({'case': c, 'exp': exp, 'obs': obs, 'path': 'direct', 'formula': None,
+                               'features': {'f': 'number_to_datetime', 'path': 'direct', 'fraction': q, 'fields_ok': fields_ok}})
 
 
 # ---------------------------------------------------------------------------
@@ -324,6 +355,11 @@ def run(run):
     blocks = pool.dump_blocks(r.dump, skip_substr='"pending"')
     rp = calls.Replayer(paths=('direct', 'wrapped', 'formula'), features=features)
     byf = calls.replay_dump(run, blocks, rp)
+    # the same calls in different orders within one process: arguments carrying a time of day first / last
+    # (direct calls only: cheap enough to take every enumerated call, so that both members of an interfering pair are there)
+    calls.replay_orders(run, blocks, calls.Replayer(paths=('direct',), features=features),
+                        key=lambda b: 0 if ('fn |-> 1' in b or 'fn |-> 3' in b or 'fn |-> 86399' in b or 'd |-> 4' in b) else 1,
+                        sample=60000 if quick else 400000)
     del blocks
     lap('replay_calls')
     # spec -> code: the sweep over serials
